@@ -128,6 +128,7 @@ class G:
     self.annotated = set()
     self.uses_T = False
     self.imports = set()
+    self.tail = []      # statements that must stay at the very end
 
   # ---- small helpers
   def i(self, lo, hi):
@@ -814,7 +815,7 @@ class G:
     if cfg.finally_:
       opts += ["try-finally", "try-else", "try-as-if-finally",
                "try-return-finally", "try-multi"]
-    opts += ["nested-literal", "big-literal"]
+    opts += ["nested-literal", "big-literal", "edge-index", "last-implicit"]
     if cfg.nested:
       opts += ["enum", "namedtuple", "typeddict", "typeddict-functional",
                "collections"]
@@ -918,6 +919,20 @@ class G:
               "  %s = 's'" % v, "except (KeyError, IndexError) as ex_:",
               "  %s = None" % v, "  raise", "else:", "  pass", "finally:",
               "  pass"]
+    if o == "edge-index":
+      env[v] = "int"
+      seq = self.pick(["(1, 'a')", "[1, 2, 3]", "()", "'abc'", "(1,)",
+                       "b'ab'", "[[1], [2]]"])
+      n = len(eval(seq))  # pylint: disable=eval-used
+      idx = self.pick([n, -n - 1, n + 3, -n, n - 1, 0])
+      t = self.fresh("t")
+      return ["%s = %s" % (t, seq), "try:", "  %s = %s[%d]" % (v, t, idx),
+              "except IndexError:", "  %s = 0" % v]
+    if o == "last-implicit":
+      f = self.fresh("f")
+      env[v] = "int"
+      self.tail.append("def %s(x) -> int:\n  if x:\n    return 1" % f)
+      return ["%s = 0" % v]
     if o == "nested-literal":
       env[v] = ("set", ("tuple", "int", "str"))
       shape = self.pick(["{(1, 2), (3, 'a')}", "[(1, 'a'), (2, 'b')]",
@@ -1104,6 +1119,8 @@ class G:
       if ext and self.chance(25):
         lines = lines + self.extended_stmt(env)
       stmts.append("\n".join(lines))
+    if self.tail:
+      stmts.append(self.tail[-1])
     header = []
     if self.needs_typing:
       header.append("from typing import %s" % ", ".join(sorted(
